@@ -4,6 +4,7 @@ CONSTANTS
   ExplicitByCanonical = TRUE
   KeyByCanonical = TRUE
   LookupCanonical = TRUE
+  PromoteSystemHits = TRUE
   IncluderDirResolved = TRUE
   OptDirsPhysical = TRUE
   MaxIncludes = 4
